@@ -223,6 +223,10 @@ def empties (sp : Space) (s : State) : List Cid := sp.cells.filter (isEmpty s)
 /-- `DiscreteSpace.agents`: an AgentSet (ordered, duplicate-free) over the chained cell lists -/
 def spaceAgents (sp : Space) (s : State) : List Aid := dictUpdate [] (sp.cells.flatMap s.occ)
 
+/-- `CellCollection.agents` of a (memoised) neighbourhood: the collection holds the cells' *live* agent
+    lists, so it shows who is there now -/
+def nbhdAgents (s : State) (cells : List Cid) : List Aid := cells.flatMap s.occ
+
 def step (sp : Space) (s : State) : Op → State × Res
   | .new k =>
     ({ s with kinds := s.kinds ++ [k], registry := s.registry ++ [s.kinds.length] }, .okAgent s.kinds.length)
